@@ -274,3 +274,22 @@ def module_state_obligations(tree):
         if not bad:
             out.append((name, "no module-level container other than the symbol table is written", True, f.lineno))
     return out
+
+
+# F7: process-wide text-formatting state.  The tree files are written with str(<numpy label array>) and read back with literal parsing; what str() gives
+# depends on numpy's print options (threshold: arrays with more elements are summarised with '...'; linewidth; a replaced string function), which any
+# imported module can change for the whole process.  Obligation per module: no call of a setter of that state, at module level or inside a function
+# (`with np.printoptions(...)` restores it and is allowed).
+FORMAT_SETTERS = {"set_printoptions", "set_string_function", "setlocale"}
+
+
+def format_state_obligations(tree, modname):
+    bad = []
+    for n in ast.walk(tree):
+        if isinstance(n, ast.Call):
+            d = _dotted(n.func) or ""
+            if d.split(".")[-1] in FORMAT_SETTERS:
+                bad.append((d, n.lineno))
+    if bad:
+        return [("%s changes process-wide formatting state with %s at line %d: the text of a tree written with str(<label array>) depends on it" % (modname, d, ln), False, ln) for d, ln in bad]
+    return [("%s never changes numpy's print options / the locale (str(<label array>) is the full text of a tree)" % modname, True, 0)]
